@@ -73,7 +73,7 @@ Proof.
 Qed.
 
 (* without a preceding ROWFMT nothing is read *)
-Lemma orderby_needs_rowfmt wide s : dec_orderby wide (TL []) s = PErr 3.
+Lemma orderby_needs_rowfmt wide s : dec_orderby wide (TL []) s = PErr 3 s.
 Proof. reflexivity. Qed.
 
 Definition orderby_tree (p : orderby) : tree := TL [TL (map TI (ob_cols p))].
